@@ -331,7 +331,7 @@ def observe(case):
         res, text = render_real(env, tpl, N, is_async)
         events, probs, worst = parse_output(text, kinds)
         problems += probs
-        runs.append({"limit": N, "result": res, "n": len(events), "digest": digest(events), "head": events[:12],
+        runs.append({"limit": N, "result": res, "n": len(events), "digest": digest(events), "head": "|".join(f"{i}:" + ",".join(map(str, ls)) for i, ls in events[:8]),
                      "max_product": worst[0] if res == "ok" else 0, "worst_chain": worst[1], "same_as_unlimited": events == uevents})
     return {
         "runs": runs,
@@ -386,7 +386,7 @@ class NestStream(Stream):
         return ["c06", case["limits"], case["depth"], [[n, to_model(b)] for n, b in case["templates"]], to_model(case["main"])]
 
     def compare_view(self, case, obs):
-        # (error class, every block execution with its enclosing lengths — as count + digest + first 12 —, max product)
+        # (error class, every block execution with its enclosing lengths — as count + digest + first 8 —, max product)
         return [{"result": r["result"], "n": r["n"], "digest": r["digest"], "head": r["head"], "max_product": r["max_product"]} for r in obs["runs"]]
 
     def canon_model(self, case, mobs):
@@ -500,14 +500,14 @@ class ChainStream(NestStream):
         thorough = ctx.tier == "thorough"
         grid1 = list(range(0, 13))
         grid2 = list(range(0, 13)) if thorough else [0, 1, 2, 3, 12]
-        grid3 = [0, 1, 2, 3, 6] if thorough else []
+        grid3 = [0, 1, 2, 3, 6] if thorough else []  # depth 3: no boundary between the innermost layer and the mark
         k = 0
         for d, grid in ((1, grid1), (2, grid2), (3, grid3)):
             if not grid:
                 continue
             kindset = REPEATING if d <= 2 else ("for", "tablerow", "include-for", "render-for")
             for kinds in itertools.product(kindset, repeat=d):
-                bsets = itertools.product(BOUNDARIES, repeat=d) if d <= 2 else itertools.product(("none", "render", "call"), repeat=d)
+                bsets = itertools.product(BOUNDARIES, repeat=d) if d <= 2 else [b + ("none",) for b in itertools.product(("none", "render", "call"), repeat=2)]
                 for bs in bsets:
                     # an `include` below a render boundary, a render-for layer or a macro call is a disabled tag
                     # (DisabledTagError before anything repeats): one representative length vector only
@@ -678,7 +678,7 @@ class RandomStream(NestStream):
 
     def cases(self, ctx):
         rng = ctx.rng_for("random")
-        n = ctx.scale(1500, 40000)
+        n = ctx.scale(1500, 20000)
         out = []
         while len(out) < n:
             c = gen_random_case(rng, is_async=bool(len(out) % 3 == 0))
